@@ -14,26 +14,50 @@ Definition sgf (f : nat) (fr : frame) : bool :=
 Fixpoint cnts (f : nat) (l : list job) : nat := match l with [] => 0 | j :: r => (if sgj f j then 1 else 0) + cnts f r end.
 Definition nsig (f : nat) (s : state) : nat := np (sgf f) s + cnts f s.(jobs).
 
-(* frames above the await continuation after which the poll's Pending outcome is settled *)
-Definition settled (fr : frame) : bool :=
-  chain fr || match fr with FWakeWith _ _ | FDQwfp _ _ | FDQempty2 _ => true | _ => false end.
-Fixpoint skips (st : list frame) : list frame := match st with [] => [] | fr :: r => if settled fr then skips r else fr :: r end.
 Definition tw (s : state) (c f : nat) : bool :=
   tokb s c || posb (np (is_unpark c) s) || posb (np (is_wake (WTask c)) s)
   || (bool_decide ((getf s f).(res) = FNone) && bool_decide ((getf s f).(fwaker) = Some (WTask c))).
-Definition tw_ok (s : state) (c : nat) (st : list frame) : bool :=
-  match skips st with FAwRet f :: _ | FPark f :: _ => tw s c f | _ => true end.
+(* poll frames above an await continuation while the outcome of the poll is still open (the waker is stored at FDQstore -> FDQwfp
+   and FDQempty1 -> FDQempty2, and by the Wait arm of poll itself) *)
+Definition pollprog (fr : frame) : option nat :=
+  match fr with
+  | FSFpoll f | FDQtake f | FDQdeq f | FDQrequeue f _ _ | FDQtake2 f _ | FDQstore f _ | FDQempty1 f | FJob _ _ (KDq f _) => Some f
+  | _ => None
+  end.
+Definition inprog_for (prev : option frame) (f : nat) : bool :=
+  match prev with Some x => match pollprog x with Some f' => bool_decide (f' = f) | None => false end | None => false end.
+(* the first await frame of a stack (from the top) carries the task-wake obligation, unless a poll of that future is in progress *)
+Fixpoint twf (s : state) (c : nat) (prev : option frame) (st : list frame) : bool :=
+  match st with
+  | [] => true
+  | y :: r => match y with
+              | FAwRet f => inprog_for prev f || tw s c f
+              | FPark f => tw s c f
+              | _ => twf s c (Some y) r
+              end
+  end.
+(* a caller blocked in sync_background still has its job in the queue (or in a runner's hand) unless it has been run *)
+Definition sbj (c : nat) (j : job) : bool := match j with JSync _ c' _ => bool_decide (c' = c) | _ => false end.
+Definition sbf (c : nat) (fr : frame) : bool :=
+  match fr with FJob j _ _ | FDRrequeue j | FDQrequeue _ _ j | FROpend j | FROcheck j | FROpark j | FD1 j => sbj c j | _ => false end.
+Fixpoint cntb (c : nat) (l : list job) : nat := match l with [] => 0 | j :: r => (if sbj c j then 1 else 0) + cntb c r end.
+Definition nsb (c : nat) (s : state) : nat := np (sbf c) s + cntb c s.(jobs).
+Definition is_sbwait (fr : frame) : bool := match fr with FSBwait => true | _ => false end.
+Definition sresb (s : state) (c : nat) : bool := default false (sress s !! c).
+Definition sb_ok (s : state) (c : nat) (st : list frame) : bool :=
+  negb (posb (cntf is_sbwait st)) || sresb s c || posb (nsb c s).
 (* frames of drain_queue at which the result is known to be missing *)
 Definition rn_ok (s : state) (fr : frame) : bool :=
   match fr with FDQdeq f | FDQstore f _ | FDQempty1 f => bool_decide ((getf s f).(res) = FNone) | _ => true end.
 
 Record Inv_task (s : state) : Prop := {
-  it_tw : forall c st, stacks s !! c = Some st -> tw_ok s c st = true;
+  it_tw : forall c st, stacks s !! c = Some st -> twf s c None st = true;
+  it_sb : forall c st, stacks s !! c = Some st -> sb_ok s c st = true;
   it_rn : forall c st fr, stacks s !! c = Some st -> fr ∈ st -> rn_ok s fr = true;
   it_sig : forall f, f < length s.(futs) -> (getf s f).(res) = FNone -> nsig f s >= 1;
 }.
 Definition task_ok (s : state) : bool :=
-  forallb (fun '(c, st) => tw_ok s c st && forallb (rn_ok s) st) (imap (fun c st => (c, st)) (stacks s))
+  forallb (fun '(c, st) => twf s c None st && sb_ok s c st && forallb (rn_ok s) st) (imap (fun c st => (c, st)) (stacks s))
   && forallb (fun f => match (getf s f).(res) with FNone => posb (nsig f s) | _ => true end) (seq 0 (length s.(futs))).
 
 (* ---------- the mechanism, step by step (these are facts about single critical sections) ---------- *)
